@@ -4,19 +4,19 @@ HERE = os.path.dirname(os.path.abspath(__file__))
 VERIF = os.path.dirname(HERE)
 
 CLAIMS = {
- 'C01': ('3/C01', 'op-template extraction + abstract interpretation (gradient linearity, must-dependence, axis typestate) + def-use rules over the 26 tensor ops',
+ 'C01': ('3/C01 and 8.2', 'op-template extraction + abstract interpretation (gradient linearity, must-dependence, axis typestate) + term differentiation + partial evaluation (flag valuations of wrapper and closure; reduction kernels on concrete axis cases) over the 26 tensor ops',
          'Decides the structural necessary conditions of the VJP property for all 26 tensor-op wrappers and their backward kernels (wiring, operand/result binding, accumulation, linearity of every returned gradient in g, un-broadcast targets, inverse permutations, accumulating scatters, reduced-axis re-insertion, dependence on saved values, axis normalisation); it does not decide the numerical value of any Jacobian.'),
  'C02': ('3/C02 and 8.2', 'op-template extraction + abstract interpretation (linearity, must-dependence) + term differentiation of smooth kernels + partial evaluation of the batch-norm kernels under all mode valuations',
          'Same structural part as C01 for the 22 nn ops plus operand coverage (every child receives a gradient), axis-genericity of softmax kernels, forward/backward agreement of the batch-norm mode predicate, pooling geometry/permutation pairing and layer->op parameter plumbing; closed-form derivative values are not decided.'),
- 'C03': ('3/C03', 'CFG dominance + traversal idiom recognition + template rules over all 48 ops',
+ 'C03': ('3/C03 and 8.2', 'CFG dominance + traversal idiom recognition + template rules + partial evaluation of every op wrapper and backward closure over all flag valuations',
          'Decides the code-shape part of the chain rule on DAGs: topological (post-order) traversal with visited test-and-mark swept in reverse, one grad_fn call site executed once per node, identity keyed nodes, += accumulation per operand position in all 48 ops; gradient values are not decided.'),
  'C04': ('3/C04', 'who-may-write scan + path-condition truth tables + freshness of the seed expression',
          'Decides the gradient-buffer discipline over all histories: writers of Tensor._grad package-wide, truth tables of the zero-init guard (leaf: create iff absent; non-leaf: always reset), root seed (accumulate iff leaf with buffer; owned dtype-converted copy) and release predicate, reset paths; gradient values are not decided.'),
- 'C05': ('3/C05', 'call-binding against a frozen NumPy signature table + axis/dim typestate + CFG dominance of validation guards + operator table',
+ 'C05': ('3/C05 and 8.2', 'call-binding against a frozen NumPy signature table + axis/dim typestate + guard tables over raise sites and path conditions + operator composition trees + kernel evaluation on concrete shape cases',
          'Decides argument plumbing of forward kernels and wrappers, dim normalisation, validation-before-kernel dominance, the operator/reflected-operator table, iteration protocol and constructor plumbing; NumPy value semantics are not decided.'),
  'C06': ('3/C06 and 8.2', 'partial evaluation with path enumeration over a shape-level abstract domain (symbolic arrays, polynomial normal form) for conv_tools and the Loss reduction dispatch + geometry typestate + call binding of layers',
          'Decides int-or-tuple geometry normalisation, the output-size formula at all sites, empty-output rejection, padding constants, per-element definitions of activations / losses as terms, batch-norm statistic choice and variance forms, exhaustive string-mode dispatch and layer->functional plumbing; window layout and value equality with PyTorch are not decided.'),
- 'C07': ('3/C07', 'template rules + CFG dominance of guards + typestate of the context managers + truth tables',
+ 'C07': ('3/C07 and 8.2', 'partial evaluation of all 48 op wrappers over every flag valuation + guard tables over raise sites and path conditions + typestate of the context managers + truth tables',
          'Decides requires_grad propagation/attachment for all 48 ops, the constructor flag formula, the five flag guards, save-on-enter/restore-on-exit stack discipline of no_grad/retain_grads, no-buffer-without-requires_grad and the release predicate.'),
  'C08': ('3/C08 and 8.2', 'may-alias abstract interpretation + control-dependence facts + partial evaluation of step() to polynomial normal forms under all flag valuations',
          'Decides ownership of optimizer state, in-place update, frozen-parameter guards, no_grad region, step counter, and equality of the SGD/Adam/AdamW updates with the published rules for every valuation of the configuration predicates; floating-point trajectories are not decided.'),
@@ -40,8 +40,8 @@ CLAIMS = {
          'Decides that backward has no graph-depth recursion, invokes each op once from one call site with O(1) work per edge, that untracked results store no children and closures escape only through the guarded attach, and that intermediates are released.'),
  'C18': ('3/C18 and 8.2', 'partial evaluation with path enumeration over symbolic index sequences (slice trees, gathers) + polynomial normal form of sizes and bounds',
          'Decides complementary slice partitions with floor-rule sizes, single guarded shuffle, X/y pairing, aligned batch slices and iterator protocol, None-guarded transform and the one-hot index rule.'),
- 'C19': ('3/C19', 'who-may-call scan over resolved callees + local inference of set-valued names + taint of id()/hash()',
-         'Decides the source discipline the repository controls: manual_seed seeds both global generators, every draw uses them, no iteration over hash-ordered sets, sweep order from a list, id()/hash() only for membership; NumPy/BLAS cross-process identity is not decided.'),
+ 'C19': ('3/C19 and 8.2', 'who-may-call scan over resolved callees + local inference of set-valued names + taint of id()/hash() + partial evaluation of constructors (uninitialised storage filled on every path)',
+         'Decides the source discipline the repository controls: manual_seed seeds both global generators, every draw uses them, no iteration over hash-ordered sets, sweep order from a list, id()/hash() only for membership in call-local containers, empty() storage is filled on every constructor path; NumPy/BLAS cross-process identity is not decided.'),
  'C20': ('3/C20 and 8.2', 'CFG dominance and region checks + call-site enumeration + definite-assignment dataflow + partial evaluation of the Evaluator per mode / prefix / callback valuation',
          'Decides the per-batch zero_grad -> backward -> step ordering, one training pass per epoch in train mode, eval-mode/no_grad regions without update calls, history bookkeeping, exhaustive evaluator dispatch and definite assignment.'),
 }
